@@ -11,7 +11,7 @@ cd $wt
 if ! git apply --check $src/patch.diff 2>/dev/null; then echo "$id: patch does not apply to current HEAD"; git -C /repo worktree remove --force $wt; exit 1; fi
 PYTHONPATH=$wt /venv/bin/python $src/demo.py >/tmp/seedwt/$id.demo_clean.log 2>&1; clean=$?
 git apply $src/patch.diff
-/root/scratch/tools/baseline_check.py $wt >/tmp/seedwt/$id.baseline.log 2>&1; base=$?
+/verif/tools/baseline_check.py $wt >/tmp/seedwt/$id.baseline.log 2>&1; base=$?
 PYTHONPATH=$wt /venv/bin/python $src/demo.py >/tmp/seedwt/$id.demo_mut.log 2>&1; mut=$?
 cd /; git -C /repo worktree remove --force $wt
 echo "$id: baseline_rc=$base demo_on_changed_rc=$mut demo_on_unchanged_rc=$clean"
